@@ -95,7 +95,7 @@ def parse_template(text):
                         segs.append(("text", "\n".join(cur_text)))
                         cur_text = []
                     segs.append(("include", rest.split()))
-                elif word in ("fn", "item", "expect-body"):
+                elif word in ("fn", "item", "expect-body", "expect-text", "gen-tree"):
                     if cur_text:
                         segs.append(("text", "\n".join(cur_text)))
                         cur_text = []
@@ -293,6 +293,41 @@ def keep_tags(clause_text):
     return TAG_RE.sub(lambda m: "/*[[%s:%s]]*/" % (m.group(1), m.group(2)), clause_text)
 
 
+_EXPAND_CACHE = {}
+_EXPAND_LOCK = __import__("threading").Lock()
+
+
+def expand_crate(name, repo, items_log):
+    """macro expansion of /verif/<name> (a crate that invokes define_language!) against the derive crate in <repo>:
+    cargo +nightly rustc -- -Zunpretty=expanded, in a scratch copy whose Cargo.toml points at <repo>"""
+    import os, shutil, subprocess, tempfile, filecmp
+    verif = os.path.dirname(os.path.dirname(os.path.abspath(__file__)))
+    key = (name, repo)
+    with _EXPAND_LOCK:
+        if key in _EXPAND_CACHE:
+            return _EXPAND_CACHE[key]
+        base = os.environ.get("VERIF_SCRATCH", "/var/tmp")
+        d = tempfile.mkdtemp(prefix="slotted-verif.expand.", dir=base)
+        try:
+            shutil.copytree(os.path.join(verif, name), os.path.join(d, "crate"))
+            ct = open(os.path.join(d, "crate", "Cargo.toml")).read().replace('"/repo', '"' + repo)
+            open(os.path.join(d, "crate", "Cargo.toml"), "w").write(ct)
+            lock = os.path.join(repo, "Cargo.lock")
+            if not os.path.exists(lock):
+                lock = "/repo/Cargo.lock"
+            if os.path.exists(lock):
+                shutil.copy(lock, os.path.join(d, "crate", "Cargo.lock"))
+            env = dict(os.environ, CARGO_NET_OFFLINE="true", CARGO_TARGET_DIR=os.path.join(d, "target"), RUSTFLAGS="-Awarnings")
+            p = subprocess.run(["cargo", "+nightly", "rustc", "--offline", "--lib", "--", "-Zunpretty=expanded"], cwd=os.path.join(d, "crate"),
+                               env=env, stdout=subprocess.PIPE, stderr=subprocess.PIPE, text=True, timeout=1800)
+            if p.returncode != 0 or "fn weak_shape_inplace" not in p.stdout:
+                raise LostAnchor("macro expansion of %s failed: %s" % (name, p.stderr[-1500:]))
+            _EXPAND_CACHE[key] = p.stdout
+            return p.stdout
+        finally:
+            shutil.rmtree(d, ignore_errors=True)
+
+
 class Emitter:
     def __init__(self, repo, template_path, checks_value=False, probe=None, sabotage=None, force_assumed=None):
         self.force_assumed = dict(force_assumed or {})
@@ -307,6 +342,8 @@ class Emitter:
         self.sabotage_hits = 0
 
     def source(self, rel):
+        if rel.startswith("expand:") and rel not in self.sources:
+            self.sources[rel] = rs.Source(rel, text=expand_crate(rel[len("expand:"):], self.repo, self.items))
         if rel not in self.sources:
             p = rel if rel.startswith("/") else self.repo + "/" + rel
             try:
@@ -346,6 +383,59 @@ class Emitter:
         self.items.append(dict(file=d.file, path=" :: ".join(d.path), rules=log,
                                sha256=hashlib.sha256(orig.encode()).hexdigest()[:16]))
         return text
+
+    def gen_tree(self, d):
+        """spec fn tree() of a define_language! enum, generated from the (expanded) enum definition:
+        Variant(a0, .., an) => Cons(a0.tree(), Cons(.., Cons(an.tree(), Nil)))"""
+        src = self.source(d.file)
+        it = src.find_one(*d.path)
+        name = it.name
+        inner = src.text[it.body_open + 1:it.body_close]
+        m = rs.mask(inner)
+        arms = []
+        i = 0
+        parts = []
+        depth = 0
+        cur = ""
+        for k, c in enumerate(m):
+            if c in "([{<":
+                depth += 1
+            elif c in ")]}>":
+                depth -= 1
+            if c == "," and depth == 0:
+                parts.append(cur)
+                cur = ""
+            else:
+                cur += inner[k] if m[k] == inner[k] else " "
+        parts.append(cur)
+        for v in parts:
+            v = re.sub(r"#\[[^\]]*\]", "", v).strip()
+            if not v:
+                continue
+            mm = re.match(r"([A-Za-z_][A-Za-z0-9_]*)\s*(\((.*)\))?\s*$", v, re.S)
+            if not mm:
+                raise LostAnchor("gen-tree: cannot read variant %r of %s" % (v, name))
+            vn, fields = mm.group(1), mm.group(3)
+            n = 0
+            if fields is not None and fields.strip():
+                depth = 0
+                n = 1
+                for c in fields:
+                    if c in "([{<":
+                        depth += 1
+                    elif c in ")]}>":
+                        depth -= 1
+                    elif c == "," and depth == 0:
+                        n += 1
+                if fields.strip().endswith(","):
+                    n -= 1
+            binds = ", ".join("a%d" % j for j in range(n))
+            expr = "T::Nil"
+            for j in reversed(range(n)):
+                expr = "T::Cons(Box::new(a%d.tree()), Box::new(%s))" % (j, expr)
+            arms.append("            %s::%s%s => %s," % (name, vn, "(%s)" % binds if n else "", expr))
+        self.items.append(dict(file=d.file, path=" :: ".join(d.path), rules=["generated spec fn tree() from the variant list (%d variants)" % len(arms)], sha256=hashlib.sha256(inner.encode()).hexdigest()[:16]))
+        return "impl %s {\n    pub open spec fn tree(&self) -> T {\n        match *self {\n%s\n        }\n    }\n}\n" % (name, "\n".join(arms))
 
     # ---- functions -----------------------------------------------------------------------
     def emit_fn(self, d):
@@ -533,6 +623,17 @@ class Emitter:
                 if rs.norm(strip_comments(body)) != rs.norm("{" + want + "}"):
                     raise LostAnchor("X5 guard: body of %s is no longer the expected one-liner `%s` (found `%s`): loops over it cannot be inlined" % (" :: ".join(d.path), want.strip(), " ".join(body.split())))
                 self.items.append(dict(file=d.file, path=" :: ".join(d.path), rules=["X5 guard: body equals the expected accessor one-liner"], sha256=hashlib.sha256(body.encode()).hexdigest()[:16]))
+            elif kind == "expect-text":
+                d = payload
+                src = self.source(d.file)
+                it = src.find_one(*d.path)
+                txt = src.text[it.start:it.end]
+                want = "\n".join(d.sections.get("body", [])).strip()
+                if not re.search(want, txt, re.S):
+                    raise LostAnchor("guard: %s no longer contains the expected text /%s/" % (" :: ".join(d.path), want))
+                self.items.append(dict(file=d.file, path=" :: ".join(d.path), rules=["guard: item contains /%s/" % want], sha256=hashlib.sha256(txt.encode()).hexdigest()[:16]))
+            elif kind == "gen-tree":
+                out.append(self.gen_tree(payload))
             elif kind == "include":
                 unit = payload[0]
                 if unit in self.included:
